@@ -71,7 +71,7 @@ func genScript(rt *rapid.T, race bool) Script {
 	s.CaseIDs = !s.Stateless && rapid.IntRange(0, 2).Draw(rt, "case_ids") == 0
 	n := rapid.IntRange(1, 40).Draw(rt, "n")
 	for i := 0; i < n; i++ {
-		st := Step{Kind: rapid.SampledFrom([]string{"note", "note", "note", "detached", "finish", "after", "duppair", "resupd", "sreq", "sreq", "sreqcancel", "cutreuse", "lateget", "quietcut"}).Draw(rt, "kind")}
+		st := Step{Kind: rapid.SampledFrom([]string{"note", "note", "note", "detached", "finish", "after", "duppair", "resupd", "sreq", "sreq", "sreqcancel", "cutreuse", "lateget", "quietcut", "ask"}).Draw(rt, "kind")}
 		st.S = rapid.IntRange(0, s.Sessions-1).Draw(rt, "s")
 		st.R = rapid.IntRange(0, s.Calls[st.S]-1).Draw(rt, "r")
 		if st.Kind == "resupd" {
@@ -125,6 +125,7 @@ type callRec struct {
 	finished bool
 	cmds     chan cmd
 	cut      bool // the client dropped this exchange while the call was in flight
+	asked    bool // its handler answered with an input request the SDK put to the client; nobody answers: still in flight
 }
 
 func runInBubble(s Script) (res vt.Result) {
@@ -219,6 +220,15 @@ func runInBubble(s Script) (res vt.Result) {
 				} else {
 					sreq(ctx, "sreq")
 				}
+			case "ask":
+				// The handler needs input from the client: it answers with an input request and nothing else. For
+				// a client of an older protocol version the SDK then puts that request to the client itself, on the
+				// handler's behalf and while the call is still being handled: it belongs to this request's stream.
+				mu.Lock()
+				seq[a.Tag]++
+				n := seq[a.Tag]
+				mu.Unlock()
+				return &mcp.CallToolResult{InputRequests: mcp.InputRequestMap{"q": &mcp.ElicitParams{Mode: "form", Message: fmt.Sprintf("%s|sdkreq|%d|-1", a.Tag, n), RequestedSchema: &jsonschema.Schema{Type: "object"}}}}, nil, nil
 			case "detached":
 				note(context.Background(), "detached")
 			case "resupd":
@@ -581,7 +591,7 @@ func runInBubble(s Script) (res vt.Result) {
 				if f.kind == "sreq" || f.kind == "sreqafter" || f.kind == "sreqloose" {
 					sreqOnStandalone = true
 				}
-				if (f.kind == "inreq" || f.kind == "sreq") && !s.JSON {
+				if (f.kind == "inreq" || f.kind == "sreq" || f.kind == "sdkreq") && !s.JSON {
 					res.Failf("step %d: a %s message issued while handling request %s (SSE mode) travelled on the standalone stream instead of the request's stream", step, f.kind, f.tag)
 				}
 			}
@@ -589,7 +599,7 @@ func runInBubble(s Script) (res vt.Result) {
 	}
 
 	var desc strings.Builder
-	dupN, sreqN, reuses := 0, 0, 0
+	dupN, sreqN, reuses, askN := 0, 0, 0, 0
 	initNoteOK := func() {
 		if !s.InitNote || s.JSON {
 			return
@@ -749,6 +759,17 @@ func runInBubble(s Script) (res vt.Result) {
 		if !c.finished && kind == "after" {
 			kind = "note"
 		}
+		if kind == "ask" && (c.finished || c.cut || s.Stateless) {
+			kind = "note"
+			if c.finished {
+				kind = "after"
+			}
+		}
+		if kind == "ask" {
+			// nobody answers the SDK's request: the call stays unanswered; only what travels where is judged
+			c.finished, c.cut, c.asked = true, true, true
+			askN++
+		}
 		if kind == "finish" {
 			c.finished = true
 		}
@@ -806,6 +827,9 @@ func runInBubble(s Script) (res vt.Result) {
 	// request must be accepted and answered on its own exchange with its own payload.
 	if len(res.Violations) == 0 {
 		for i := 0; i < s.Sessions; i++ {
+			if first := byKey[[2]int{i, 0}]; first != nil && first.asked {
+				continue // id 0 of this session is still in flight (its handler is waiting for the client's input)
+			}
 			c := &callRec{s: i, r: 0, tag: fmt.Sprintf("s%dr0again", i)}
 			c.ex = do("POST", fmt.Sprintf(`{"jsonrpc":"2.0","id":0,"method":"tools/call","params":{"name":"emit","arguments":{"tag":%q},"_meta":{"progressToken":%q}}}`, c.tag, c.tag), sessionIDs[i])
 			if c.ex == nil {
@@ -830,6 +854,9 @@ func runInBubble(s Script) (res vt.Result) {
 	res.Class(fmt.Sprintf("stateless_%v_json_%v", s.Stateless, s.JSON))
 	if s.CaseIDs && s.Sessions > 1 {
 		res.Class("session_ids_differing_only_in_case")
+	}
+	if askN > 0 {
+		res.Class("input_request_put_to_the_client_by_the_sdk")
 	}
 	if sreqN > 0 {
 		res.Class("server_to_client_request")
